@@ -91,7 +91,18 @@ type scen struct {
 	ord     int
 	rng     *rand.Rand
 	unfed   int
+	huge    bool // the source buffer grew beyond hugeCap: the scenario ends there
 }
+
+// No history needs a source buffer of this size; a decoder that reserves it (a
+// hostile prefix taken at its word) is recorded and the scenario ends, after
+// maxHuge such scenarios the run stops (each costs gigabytes).
+const (
+	hugeCap = 1 << 28
+	maxHuge = 3
+)
+
+var errStop = errors.New("stop")
 
 func mix(x uint64) uint64 {
 	x += 0x9E3779B97F4A7C15
@@ -443,6 +454,7 @@ func (s *scen) dec() (Ev, error) {
 		return e, nil
 	}
 	e.Capg = b2i(s.src.Cap() > cap0)
+	s.huge = s.src.Cap() > hugeCap
 	s.syncUnc()
 	err := s.observe(&e)
 	return e, err
@@ -515,6 +527,7 @@ func Run(a tr.Args) error {
 	}
 	sum := tr.Summary{Component: "frame"}
 	outcomes := map[string]int{}
+	huge := 0
 	err = tr.Behaviours(a.In, func(idx int, raw json.RawMessage) error {
 		var steps []G
 		if err := json.Unmarshal(raw, &steps); err != nil {
@@ -581,16 +594,24 @@ func Run(a tr.Args) error {
 					}
 				}
 			}
-			if e.Res == "panic" {
+			if e.Res == "panic" || s.huge {
 				break
 			}
 		}
 		if nontrivial {
 			sum.Nontrivial++
 		}
+		if s.huge {
+			huge++
+			outcomes["huge_reserve"]++
+			if huge >= maxHuge {
+				outcomes["stopped_after_huge_reserve"] = 1
+				return errStop
+			}
+		}
 		return nil
 	})
-	if err != nil {
+	if err != nil && !errors.Is(err, errStop) {
 		return err
 	}
 	sum.Events = w.N
